@@ -160,6 +160,12 @@ def run(repo: Repo, chk: Check) -> None:
     res = Interp(repo, Hooks(), max_depth=1).run_function(ua, [Sym('data', 'bytes')])
     chk.ob('R-PATH', ua.qualname, sum(1 for p in res if p.outcome == 'raise') >= 2, 'truncated data is rejected', ua.loc, what='UNPACK accepts truncated arrays')
 
+    # ---- memory across calls (shared rule, sa/statelint.py) ----------------------------------------------------------------------------------
+    chk.set_clause('C04.M')
+    from ..statelint import check_memory
+    check_memory(repo, chk, ['pytezos.michelson.types.base.', 'pytezos.michelson.forge.'],
+                 'UNPACK / PACK of one value then answer for another (the second of two different types or inputs gets the first result)')
+
 
 class _PackInstr(InstrHooks):
     pass
